@@ -111,13 +111,13 @@ def _deep(n, kind, leaf):
     x = {'a': x} if kind == 'dict' else ((x,) if kind == 'tuple' else [x])
   return x
 def _setof(items, frozen):
-  out = []
+  out = set()
   for i in items:
     try:
-      hash(i); out.append(i)
+      out.add(i)
     except Exception:
       pass
-  return frozenset(out) if frozen else set(out)
+  return frozenset(out) if frozen else out
 def _dictof(pairs, cls):
   out = cls()
   for k, v in pairs:
@@ -143,13 +143,13 @@ def _deep(n, kind, leaf):
   return x
 
 def _setof(items, frozen):
-  out = []
+  out = set()
   for i in items:
     try:
-      hash(i); out.append(i)
+      out.add(i)
     except Exception:
       pass
-  return frozenset(out) if frozen else set(out)
+  return frozenset(out) if frozen else out
 
 def _dictof(pairs, cls):
   out = cls()
@@ -385,6 +385,18 @@ def build(spec, fx=None, depth=0, inself=False):
             'timedelta': datetime.timedelta(days=1, seconds=5), 'time': datetime.time(12, 30),
             'module': datetime}.get(w, Ellipsis)
   return None
+
+
+def for_formula(spec):
+  """Spec as used for formula values: ReferenceLookup (an input-only instruction object of the engine, which a
+  formula could only build by importing engine internals) is replaced by an UnmarshallableValue."""
+  if isinstance(spec, list):
+    return [for_formula(s) for s in spec]
+  if isinstance(spec, dict):
+    if spec.get('k') == 'obj' and spec.get('w') == 'reflookup':
+      return {'k': 'obj', 'w': 'unmarshallable', 'v': _str(spec.get('v'))}
+    return {k: for_formula(v) for k, v in spec.items()}
+  return spec
 
 
 def source(spec, depth=0, inself=False):
